@@ -240,7 +240,7 @@ func resolveNode variant any standalone returns (err)
   modifies heap(DBNode)
   ensures @wf WfDBI(db) && (badok ==> BadInv(db))
   // the limit is tested BEFORE anything else: a reference to a plain element counts (a chain of exactly N references fails)
-  ensures @limit-first [C11] level >= maxDepth ==> err != nil
+  ensures @limit-first [C11] level >= maxDepth ==> err != nil && ErrMsg(err) == "maximum resolution depth reached"
   ensures @cyclic-fails [C11] badok && Bad(name) ==> err != nil
   ensures @arrays forall a int :: {arrayat(Element, a)} a < old(alloc()) ==> arrayat(Element, a) == old(arrayat(Element, a))
   ensures @fresh-or-same forall k string :: {db[k]} k in db ==> arr(mapget(db, k).Elements) == old(arr(mapget(db, k).Elements)) || fresh(arr(mapget(db, k).Elements))
@@ -301,7 +301,7 @@ func (Resolver).resolveNode variant any standalone returns (err)
   decreases r.config.MaxDepth - level
   modifies heap(DBNode)
   ensures @wf WfDBI(r.db) && (badok ==> BadInv(r.db))
-  ensures @limit-first [C11] level >= r.config.MaxDepth ==> err != nil
+  ensures @limit-first [C11] level >= r.config.MaxDepth ==> err != nil && ErrMsg(err) == "maximum resolution depth reached"
   ensures @cyclic-fails [C11] badok && Bad(name) ==> err != nil
   ensures @arrays forall a int :: {arrayat(Element, a)} a < old(alloc()) ==> arrayat(Element, a) == old(arrayat(Element, a))
   ensures @fresh-or-same forall k string :: {r.db[k]} k in r.db ==> arr(mapget(r.db, k).Elements) == old(arr(mapget(r.db, k).Elements)) || fresh(arr(mapget(r.db, k).Elements))
